@@ -123,14 +123,14 @@ Print Assumptions C05_concat_examples.
 
 (* ---- open findings: the faithful model reproduces them (full-strength "always answers" refuted) ---- *)
 
-(* F23 *)
+(* F30 *)
 Theorem C05_lazy_negative_step_refuted :
   run_lazy [5] [] [ASlice None None (Some (-1))] = Err
   /\ spec_getitem [5] (arange [5] 0) [] [] 0 [ASlice None None (Some (-1))] <> Err.
 Proof. exact lazy_negative_step_refuted. Qed.
 Print Assumptions C05_lazy_negative_step_refuted.
 
-(* F24 *)
+(* F31 *)
 Theorem C05_lazy_negative_stage1_int_refuted :
   run_lazy [5] [AInt (-1)] [] = Err /\ spec_getitem [5] (arange [5] 0) [AInt (-1)] [] 0 [] <> Err.
 Proof. exact lazy_negative_stage1_int_refuted. Qed.
@@ -150,7 +150,7 @@ Theorem C05_concat_empty_tail_refuted :
 Proof. exact concat_empty_tail_refuted. Qed.
 Print Assumptions C05_concat_empty_tail_refuted.
 
-(* F25: wrong data *)
+(* F32: wrong data *)
 Theorem C05_concat_negative_step_refuted :
   exists out, run_concat parts_3_1 [ASlice (Some (-9)) (Some 1) (Some (-1))] = Ok out
   /\ spec_concat parts_3_1 [] [ASlice (Some (-9)) (Some 1) (Some (-1))] <> Ok out
@@ -158,7 +158,7 @@ Theorem C05_concat_negative_step_refuted :
 Proof. exact concat_negative_step_refuted. Qed.
 Print Assumptions C05_concat_negative_step_refuted.
 
-(* F26 *)
+(* F33 *)
 Theorem C05_concat_unchecked_tail_scalar_refuted :
   exists out, run_concat two_parts [AList []; AInt 5] = Ok out /\ spec_concat two_parts [] [AList []; AInt 5] = Err.
 Proof. exact concat_unchecked_tail_scalar_refuted. Qed.
